@@ -266,7 +266,7 @@ def cases(draw, opts):
 
 
 WEIGHTS = {"sete": 34, "setv": 18, "inplace": 10, "unreg": 14, "setc": 4,
-           "regft": 5, "regknob": 3, "unregtask": 4, "maint": 8}
+           "regft": 5, "regknob": 3, "unregtask": 4, "maint": 8, "load": 8}
 
 
 def run(ctx):
